@@ -19,7 +19,7 @@ RULE = ('every lattice class found by reflection (Chain, Ladder, NLegLadder, Squ
 ASSUMPTIONS = ['`lat.order` (the array defining the snake) is taken as the definition of the MPS index of a site',
                'Euclidean distances from lat.position() with tolerance 1e-8']
 ANCHORS = {'tenpy/models/lattice.py': ['*']}
-REQUIRED_COUNTERS = {'lattices': 50, 'couplings.dx_checked': 2000, 'pairs.checked': 30, 'irregular.lattices': 5,
+REQUIRED_COUNTERS = {'multispecies.multi_site_simple_cell': 3, 'lattices': 50, 'couplings.dx_checked': 2000, 'pairs.checked': 30, 'irregular.lattices': 5,
                      'multi_couplings.checked': 20, 'values.checked': 30, 'helical.lattices': 3, 'multispecies.lattices': 3}
 REQUIRED_ANCHORS = ['lattice.py:Lattice.possible_couplings', 'lattice.py:Lattice.possible_multi_couplings',
                     'lattice.py:Lattice.mps2lat_idx', 'lattice.py:Lattice.lat2mps_idx', 'lattice.py:Lattice.mps2lat_values',
@@ -116,9 +116,29 @@ def make_lattice(ctx, rng, kind):
             positions = rng.uniform(0, 0.9, size=(nu, dim))
         desc['bc_MPS'] = bc_MPS
         if kind == 'MultiSpecies':
-            simple = L.SimpleLattice(Ls, s, bc=bc_for(dim), bc_MPS=bc_MPS,
-                                     order=order_for(['default', 'snake', 'Cstyle', 'Fstyle']))
-            lat = L.MultiSpeciesLattice(simple, [s, f][:int(rng.integers(1, 3))])
+            r = rng.random()
+            if r < 0.35:
+                simple = L.SimpleLattice(Ls, s, bc=bc_for(dim), bc_MPS=bc_MPS,
+                                         order=order_for(['default', 'snake', 'Cstyle', 'Fstyle']))
+            elif r < 0.7:
+                # the "simple" lattice may have a unit cell of its own (documented: Honeycomb example)
+                name = str(rng.choice(['Ladder', 'Honeycomb', 'Kagome', 'Square', 'Triangular']))
+                if name == 'Ladder':
+                    simple = L.Ladder(int(rng.integers(2, 5)), None, bc=bc_for(1), bc_MPS=bc_MPS)
+                else:
+                    simple = getattr(L, name)(int(rng.integers(2, 4)), int(rng.integers(1, 4)), None, bc=bc_for(2), bc_MPS=bc_MPS,
+                                              order=order_for(['default', 'snake', 'Cstyle']))
+                desc['simple'] = name
+            else:
+                simple = L.Lattice(Ls, uc, order=order_for(['default', 'snake', 'Cstyle', 'Fstyle']), bc=bc_for(dim), bc_MPS=bc_MPS,
+                                   basis=basis, positions=positions,
+                                   pairs={'nearest_neighbors': [(0, nu - 1, np.array([1] + [0] * (dim - 1)))],
+                                          'custom': [(u, (u + 1) % nu, np.array([0] * (dim - 1) + [1])) for u in range(nu)]})
+                desc['simple'] = 'Lattice(nu=%d)' % nu
+            nsp = int(rng.integers(1, 4))
+            names = None if rng.random() < 0.5 else ['a', 'b', 'c'][:nsp]
+            lat = L.MultiSpeciesLattice(simple, [s, f, s][:nsp], names)
+            desc['species'] = [nsp, names]
             ctx.count('multispecies.lattices')
         else:
             if kind == 'Helical':
@@ -274,6 +294,8 @@ def run_case(ctx, i):
         check_values(ctx, lat, G, case, rng)
         if kind in ('Chain', 'Ladder', 'Square', 'Triangular', 'Honeycomb', 'Kagome'):
             check_pairs(ctx, lat, G, case, rng)
+        if kind == 'MultiSpecies':
+            check_multispecies(ctx, lat, case, rng)
     ctx.sig((kind, tuple(desc['Ls']), str(desc.get('order')), tuple(desc['bc']), str(desc['bc_shift']), desc['bc_MPS'],
              repr(desc.get('remove')), repr(desc.get('add')), 'custom_order' in desc), nontrivial=len(desc['Ls']) >= 2 or desc['n_u'] >= 2)
     if i % 60 == 0:
@@ -578,6 +600,84 @@ def check_pairs(ctx, lat, G, case, rng):
             ctx.violation('distance:wrong', '', case)
     except Exception as e:
         ctx.violation('distance:raises', repr(e), case)
+
+
+def check_multispecies(ctx, lat, case, rng):
+    """A MultiSpeciesLattice is its simple lattice with every site replaced by the species, all at the position of that site."""
+    sl = lat.simple_lattice
+    nsp = lat.N_species
+    names = lat.species_names
+    slu = len(sl.unit_cell)
+    ctx.count('multispecies.checked')
+    if slu > 1:
+        ctx.count('multispecies.multi_site_simple_cell')
+    if len(lat.unit_cell) != slu * nsp or lat.simple_Lu != slu:
+        ctx.violation('multispecies:unit-cell-size', '%d != %d * %d' % (len(lat.unit_cell), slu, nsp), case)
+        return
+    # u <-> (simple u, species) maps
+    for u in range(slu * nsp):
+        su, sp = int(lat.self_u_to_simple_u(u)), int(lat.self_u_to_species_idx(u)) if hasattr(lat, 'self_u_to_species_idx') else u % nsp
+        if (su, sp) != (u // nsp, u % nsp) or int(lat.simple_u_to_species_u(su, sp)) != u:
+            ctx.violation('multispecies:u-maps', 'u=%d -> simple %d species %d' % (u, su, sp), case)
+            return
+    # positions: every species sits where the simple site sits
+    ucp = np.asarray(lat.unit_cell_positions)
+    sucp = np.asarray(sl.unit_cell_positions)
+    for u in range(slu * nsp):
+        if not np.allclose(ucp[u], sucp[u // nsp], atol=1e-12):
+            ctx.violation('multispecies:unit_cell_positions', 'u=%d at %r, simple site %d at %r' % (u, ucp[u].tolist(), u // nsp, sucp[u // nsp].tolist()), case)
+            return
+    for k in range(min(lat.N_sites, 12)):
+        idx = np.array(lat.order[int(rng.integers(lat.N_sites))])
+        sidx = idx.copy()
+        sidx[-1] = idx[-1] // nsp
+        if not np.allclose(lat.position(idx), sl.position(sidx), atol=1e-12):
+            ctx.violation('multispecies:position', 'lattice index %r' % (idx.tolist(), ), case)
+            return
+    # order: the species of one simple site are neighbours in the MPS, in the order of the simple lattice
+    # (the MultiSpeciesLattice is built with the *default* order name, not with the order the simple lattice happens to use)
+    so = np.asarray(sl.ordering('default'))
+    exp = np.repeat(so, nsp, axis=0)
+    exp[:, -1] = exp[:, -1] * nsp + np.tile(np.arange(nsp), len(so))
+    if not np.array_equal(np.asarray(lat.order), exp):
+        ctx.violation('multispecies:order', 'order is not the simple order with species adjacent', case)
+        return
+    # pairs
+    exp_pairs = {}
+
+    def norm(lst):
+        return sorted((int(a), int(b), tuple(int(x) for x in np.asarray(d).tolist())) for a, b, d in lst)
+
+    for key, val in sl.pairs.items():
+        allp, diag = [], []
+        for i1, n1 in enumerate(names):
+            for i2, n2 in enumerate(names):
+                v = [(u1 * nsp + i1, u2 * nsp + i2, dx) for u1, u2, dx in val]
+                exp_pairs['%s_%s-%s' % (key, n1, n2)] = v
+                allp += v
+                if i1 == i2:
+                    diag += v
+        exp_pairs[key + '_all-all'] = allp
+        exp_pairs[key + '_diag'] = diag
+    for i1, n1 in enumerate(names):
+        for i2, n2 in enumerate(names):
+            if i2 > i1:
+                exp_pairs['onsite_%s-%s' % (n1, n2)] = [(u * nsp + i1, u * nsp + i2, [0] * sl.dim) for u in range(slu)]
+    if set(exp_pairs) != set(lat.pairs):
+        ctx.violation('multispecies:pair-keys', 'keys %r expected %r' % (sorted(lat.pairs), sorted(exp_pairs)), case)
+        return
+    for key in exp_pairs:
+        if norm(lat.pairs[key]) != norm(exp_pairs[key]):
+            ctx.violation('multispecies:pairs', 'key %r: %r expected %r' % (key, norm(lat.pairs[key])[:6], norm(exp_pairs[key])[:6]), case)
+            return
+    # distances of the pairs are those of the simple lattice (0 for onsite)
+    for key, val in lat.pairs.items():
+        for u1, u2, dx in val:
+            d = float(lat.distance(u1, u2, np.asarray(dx)))
+            ds = float(sl.distance(u1 // nsp, u2 // nsp, np.asarray(dx)))
+            if abs(d - ds) > 1e-9 or (key.startswith('onsite') and abs(d) > 1e-12):
+                ctx.violation('multispecies:pair-distance', 'key %r (%d,%d,%r): distance %r, in the simple lattice %r' % (key, u1, u2, list(np.asarray(dx)), d, ds), case)
+                return
 
 
 def check_helical(ctx, lat, case):
